@@ -134,6 +134,15 @@ CHECKS = {
                   "no oversized allocation) are decided by the correspondence on round trips, mutated encodings and random bytes incl. TLV lengths "
                   "near 0xffff.",
              technique="Coq proof (byte-level TLV lemmas, list induction) + executed correspondence on arbitrary bytes", ref="4 (C16)"),
+
+ "C20": dict(text="Theorems C20_* (Properties/C20.v) over records modelling Config/ConfigFile/Args field by field: each of the 25 scalar settings of "
+                  "the effective configuration is the command-line value if given, else the file value, else the documented default; the four "
+                  "switches are one-way; peers, claims, advertised addresses and trusted keys are file entries followed by command-line entries; "
+                  "per-event hooks accumulate with the command line winning per event; converting to file form and merging into defaults is the "
+                  "identity apart from daemonize; prefix 0..32 gives exactly that many leading one bits (/24 by default), above 32 an error, never a "
+                  "panic (after the fix of F12). Tied to the code by rendering every case as YAML text and argv, parsing with serde_yaml/structopt, "
+                  "merging and dumping the real Config (incl. a YAML round trip) vs the extracted model; oracle = the documented rule.",
+             technique="Coq proof (record-field case analysis, fold lemmas for the hook map, 33-value sweep) + executed correspondence through the real parsers", ref="4 (C20)"),
 }
 NA_REASON = "check not built yet in this revision of /verif (planned, see DESIGN.md section 4); not claimed"
 def main():
